@@ -27,7 +27,7 @@ ASSUMPTIONS = [
     'unspecified: a single-dash tdda flag placed after a positional class name; the exit status of a listing run; naming individual methods',
     'test order is unittest\'s (classes and methods sorted by name), which -f (failfast) relies on',
 ]
-REQUIRED_MONITORS = ['runs:forked', 'runs:pytest_driven', 'session:run_compared', 'runs:real_crosscheck', 'log:bodies_observed', 'listing:checked', 'verbose:checked',
+REQUIRED_MONITORS = ['runs:forked', 'modules:with_load_tests_hook', 'listing:hook_module_ran_nothing', 'runs:pytest_driven', 'session:run_compared', 'runs:real_crosscheck', 'log:bodies_observed', 'listing:checked', 'verbose:checked',
                      'failfast:checked']
 REQUIRED_CLASSES = ['mode=all', 'mode=tagged', 'mode=list', 'spelling=-1', 'spelling=--tagged', 'spelling=-0',
                     'spelling=--istagged', 'spelling=both-glued', 'spelling=both-separate', 'spelling=both-long', 'spelling=both-mixed', 'cluster=1', 'classes_named=1', 'k_option=1', 'write_flag=1', 'inheritance=1']
@@ -46,7 +46,7 @@ ENDINGS = {'class': 'ReferenceTestCase.main()',
            'function': 'from tdda.referencetest.referencetestcase import main\n    main()'}
 
 
-def module_source(classes, ending='class'):
+def module_source(classes, ending='class', load_tests=False):
     s = [HEADER]
     for c in classes:
         if c['tagged']:
@@ -61,6 +61,16 @@ def module_source(classes, ending='class'):
             s.append('        hit(self, %r)' % t['name'])
             if t['fails']:
                 s.append('        self.fail("deliberate")')
+        s.append('')
+    if load_tests:
+        # unittest's load_tests protocol: the module builds its own suite, instance by instance, in unittest's usual order
+        model = tagselect.resolve(classes)
+        s.append('def load_tests(loader, standard_tests, pattern):')
+        s.append('    suite = unittest.TestSuite()')
+        for n in sorted(model):
+            for m in sorted(model[n]['tests']):
+                s.append('    suite.addTest(%s(%r))' % (n, m))
+        s.append('    return suite')
         s.append('')
     s.append("if __name__ == '__main__':\n    %s\n" % ENDINGS[ending])
     return '\n'.join(s)
@@ -181,7 +191,9 @@ def run_case(ctx, case, real=False):
     os.makedirs(d, exist_ok=True)
     path = os.path.join(d, 'mod_under_test.py')
     with open(path, 'w') as f:
-        f.write(module_source(case['classes'], case.get('ending', 'class')))
+        f.write(module_source(case['classes'], case.get('ending', 'class'), load_tests=bool(case.get('load_tests'))))
+    if case.get('load_tests'):
+        rec.event('modules:with_load_tests_hook')
     log = os.path.join(d, 'hits.log')
     if os.path.exists(log):
         os.unlink(log)
@@ -211,10 +223,16 @@ def run_case(ctx, case, real=False):
     obs = {'executed': hits, 'status': res.status, 'stdout': res.out, 'stderr': res.err}
     if real:
         return obs
-    mech = {'mode': am['mode'], 'spelling': case['spelling'], 'cluster': case['cluster'],
+    mech = {'mode': am['mode'], 'spelling': case['spelling'], 'cluster': case['cluster'], **({'load_tests_hook': True} if case.get('load_tests') else {}),
             'unittest_flags_before': bool(case['argv']) and case['argv'][0] in ('-v', '-q', '-f', '-b') and case['spelling'] in ('-1', '-0')}
     facts = {'argv': case['argv'], 'executed': hits[:12], 'expected': exp['executed'][:12], 'status': res.status,
              'stderr_tail': res.err[-400:], 'stdout': res.out[-300:]}
+    hook_in_charge = bool(case.get('load_tests')) and not am['classes']
+    if hook_in_charge and am['mode'] == 'tagged':
+        # the module's own load_tests built every instance by hand: which of them run is the hook's decision, not the loader's
+        # (unittest's -k is bypassed the same way); tdda documents nothing for this - see DESIGN section 4
+        rec.unspecified('load_tests hook builds its own instances: tag selection is out of the loader\'s hands')
+        return obs
     if sorted(hits) != sorted(exp['executed']):
         rec.violation('wrong_tests_executed', {'case': case, 'mech': dict(mech, none_ran=not hits, status=res.status), 'facts': facts})
         return obs
@@ -225,7 +243,9 @@ def run_case(ctx, case, real=False):
     if am['mode'] == 'list':
         rec.event('listing:checked')
         named = set(l.strip().split('.')[-1] for l in res.out.splitlines() if l.strip() and re.match(r'^[\w.]+$', l.strip()))
-        if named != exp['listing']:
+        if hook_in_charge:
+            rec.event('listing:hook_module_ran_nothing')      # (which classes a hand-built suite makes the listing name is not judged)
+        elif named != exp['listing']:
             rec.violation('listing_names', {'case': case, 'mech': mech, 'facts': dict(facts, listed=sorted(named), want=sorted(exp['listing']))})
     else:
         per_test = len(re.findall(r' \.\.\. (?:ok|FAIL|ERROR)', res.err))
@@ -488,6 +508,8 @@ def run_shard(ctx):
         for a in range(ctx.params['argvs']):
             k += 1
             case = dict(gen_argv(rng, classes, a + m), classes=classes, ending='function' if (a + m) % 5 == 3 else 'class')
+            if m % 4 == 2 and not case.get('k'):
+                case['load_tests'] = True        # (-k acts inside the loader's own name collection, which such a hook does not use)
             obs = run_case(ctx, case)
             if obs is not None and k % ctx.params['real_every'] == 1:
                 real = run_case(ctx, case, real=True)
